@@ -14,7 +14,7 @@ META = {
     'functions_encoded': ['pydl.pydlspec2d.spec2d.combine1fiber (1-D, and stacks of two exposures)', 'pydl.pydlspec2d.spec2d.aesthetics', 'pydl.pydlutils.image.djs_maskinterp',
                           'pydl.smooth.smooth', 'pydl.pydlspec2d.spec1d.preprocess_spectra (shift arithmetic)'],
     'stubs': ['iterfit -> ARBITRARY fit outcome: fresh symbolic flux for every evaluated pixel, arbitrary (symbolic) evaluation mask, '
-              'arbitrary (symbolic) rejection mask, non-zero coefficients', 'numpy.interp by its definition; maskbits cache preset (SPPIXMASK)',
+              'arbitrary (symbolic) rejection mask, arbitrary non-zero (symbolic) coefficients', 'numpy.interp by its definition; maskbits cache preset (SPPIXMASK)',
               'stacks: djs_median (running median over 101 pixels of the variances) -> arbitrary positive value per pixel; fit outcome fixed to "accepts everything"',
               'preprocess_spectra: combine1fiber replaced by a recorder; log10(1+z) evaluated in IEEE double on a concrete z'],
     'assumptions': ['input log-wavelengths increasing; input and output grids are concrete exact rationals; flux and inverse variance symbolic (ivar >= 0)',
@@ -43,20 +43,27 @@ GRIDS = {
 class FitStub(object):
     """replacement of iterfit: arbitrary outcome (every quantity a fresh solver variable)."""
 
-    def __init__(self, ctx, fixed_masks=None):
+    def __init__(self, ctx, fixed_masks=None, scale=None):
         self.ctx = ctx
         self.calls = []
         self.values = {}
         self.fixed = fixed_masks
+        self.scale = scale          # a least-squares fit is linear in the data: data scaled by c -> curve and coefficients scaled by c
 
     def __call__(self, x, y, invvar=None, **kw):
         n = len(x)
         k = len(self.calls)
         bmask = np.array([True if self.fixed else bool(self.ctx.bool('bmask%d_%d' % (k, i))) for i in range(n)], dtype=bool)
         stub = self
+        # the coefficients of the fitted spline: arbitrary, not all zero (a fit that returns only zeros is the
+        # code's own 'failed' signal)
+        cf = self.ctx.real('coeff%d' % k)
+        self.ctx.add(zt(cf) != 0)
+
+        sc = self.scale
 
         class SSet(object):
-            coeff = np.array([1.0])
+            coeff = symnp.rarray([cf if sc is None else cf * sc])
 
             def value(self_inner, xx):
                 vals = np.empty(len(xx), dtype=object)
@@ -67,17 +74,19 @@ class FitStub(object):
                         stub.values[key] = (stub.ctx.real('spl_' + key.replace('/', '_')),
                                             True if stub.fixed else bool(stub.ctx.bool('vmask_' + key.replace('/', '_'))))
                     vals[i], m[i] = stub.values[key]
+                    if sc is not None:
+                        vals[i] = vals[i] * sc
                 return vals, m
         self.calls.append((x.tolist(), bmask.tolist()))
         return SSet(), bmask
 
 
-def _run(ctx, grid, fl, iv, aest, scale=None, fix_fit=False):
+def _run(ctx, grid, fl, iv, aest, scale=None, fix_fit=False, fit_scale=None):
     import pydl.pydlspec2d.spec2d as spec2d
     import pydl.pydlutils.sdss as sdss
     sdss.maskbits = {'SPPIXMASK': dict(SPPIXMASK)}
     inl, newl = GRIDS[grid]
-    stub = FitStub(ctx, fixed_masks=fix_fit)
+    stub = FitStub(ctx, fixed_masks=fix_fit, scale=fit_scale)
     saved = spec2d.iterfit
     spec2d.iterfit = stub
     try:
@@ -228,6 +237,9 @@ def ob_combine2d(grid):
                       'second >= 0), every smoothed variance, fit outcome fixed to "all accepted"' % grid, max_paths=400000, max_seconds=1700)
 
 
+SCALES = [Fraction(1, 1000), Fraction(30)]
+
+
 def ob_scaling(grid):
     def fn(ctx):
         inl, newl = GRIDS[grid]
@@ -245,6 +257,13 @@ def ob_scaling(grid):
         f2, i2, s2 = _run(ctx, grid, fl, [v * k for v in iv], None)
         for j in range(m):
             ctx.require(zt(R.lift(i2[j])) == zt(R.lift(i1[j])) * zt(k), 'scaling the input inverse variance by 1/c^2 scales the output likewise (same fit outcome)', dict(d, j=j))
+        # flux scaled by c together with inverse variance scaled by 1/c^2 (c chosen by the solver); the fit outcome scales with the data
+        c = SCALES[int(ctx.int('c_choice', 0, len(SCALES) - 1))]
+        d = dict(d, c=str(c))
+        f3, i3, s3 = _run(ctx, grid, [v * R(c) for v in fl], [v * R(1 / (c * c)) for v in iv], None, fit_scale=R(c))
+        for j in range(m):
+            ctx.require(zt(R.lift(f3[j])) == zt(R.lift(f1[j])) * zt(R(c)), 'scaling flux by c and inverse variance by 1/c^2 scales the output flux by c', dict(d, j=j))
+            ctx.require(zt(R.lift(i3[j])) * zt(R(c * c)) == zt(R.lift(i1[j])), 'scaling flux by c and inverse variance by 1/c^2 scales the output inverse variance by 1/c^2', dict(d, j=j))
     return Obligation('combine1fiber ivar scaling %s' % grid, fn, bounds='grid %s, all weights positive' % grid, max_paths=100000,
                       solver_timeout_ms=120000, max_seconds=1700)
 
@@ -342,7 +361,7 @@ def replay(rec):
 
         def fit_stub(xx, yy, invvar=None, **kw):
             class S(object):
-                coeff = np.array([1.0])
+                coeff = np.array([_f(inp.get('coeff%d' % len(calls), 1.0))])
 
                 def value(self, q):
                     return np.array([_f(inp.get('spl_' + str(newl[int(np.argmin(np.abs(xn - qv)))]).replace('/', '_'), 0.0)) for qv in q]), \
@@ -411,20 +430,22 @@ def replay(rec):
     iv = np.array([_f(inp.get('iv%d' % i, 1)) for i in range(n)]) if with_ivar else None
     calls = []
     values = {}
+    fit_scale = [1.0]
 
     def stub(xx, yy, invvar=None, **kw):
         k = len(calls)
         bm = np.array([bool(inp.get('bmask%d_%d' % (k, i), True)) for i in range(len(xx))])
+        sc = fit_scale[0]
 
         class S(object):
-            coeff = np.array([1.0])
+            coeff = np.array([_f(inp.get('coeff%d' % k, 1.0)) * sc])
 
             def value(self, q):
                 vals, mm = [], []
                 for qv in q:
                     j = int(np.argmin(np.abs(xn - qv)))
                     key = str(newl[j]).replace('/', '_')
-                    vals.append(_f(inp.get('spl_' + key, 0.0)))
+                    vals.append(_f(inp.get('spl_' + key, 0.0)) * sc)
                     mm.append(bool(inp.get('vmask_' + key, True)))
                     values[j] = vals[-1]
                 return np.array(vals), np.array(mm)
@@ -445,7 +466,20 @@ def replay(rec):
             flux2, ivar2 = spec2d.combine1fiber(x, fl, xn, objivar=iv * kk)
         finally:
             spec2d.iterfit = saved
-        return bool(np.abs(ivar2 - ivar * kk).max() > 1e-9 * max(1.0, np.abs(ivar * kk).max()))
+        if np.abs(ivar2 - ivar * kk).max() > 1e-9 * max(1.0, np.abs(ivar * kk).max()):
+            return True
+        if 'c' in d:
+            c = float(Fraction(d['c']))
+            calls[:] = []
+            fit_scale[0] = c
+            spec2d.iterfit = stub
+            try:
+                flux3, ivar3 = spec2d.combine1fiber(x, fl * c, xn, objivar=iv / (c * c))
+            finally:
+                spec2d.iterfit = saved
+            return bool(np.abs(flux3 - flux * c).max() > 1e-9 * max(1e-300, np.abs(flux * c).max())
+                        or np.abs(ivar3 * c * c - ivar).max() > 1e-9 * max(1e-300, np.abs(ivar).max()))
+        return False
     if flux.shape != (m,) or ivar.shape != (m,) or (ivar < 0).any():
         return True
     if not (np.isfinite(flux).all() and np.isfinite(ivar).all()):
